@@ -35,6 +35,12 @@ Theorem C11_validated_implies_safe_partial : forall pf ns args f a,
 Proof. exact validated_implies_safe. Qed.
 Print Assumptions C11_validated_implies_safe_partial.
 
+(* (1b) the same with node.UseRedisV2: the raw command is proposed and the namespace is cut at apply *)
+Theorem C11_validated_implies_safe_v2_partial : forall pf ns args f a,
+  proposed_v2 pf ns args f = Some a -> apply_shape pf true a <> APanic.
+Proof. exact validated_implies_safe_v2. Qed.
+Print Assumptions C11_validated_implies_safe_v2_partial.
+
 (* (2') the error classification step of the apply loop (isUnrecoveryError => panic(err)), read from the
    source into Consts: whatever client bytes an apply error of the node layer quotes (strconv errors,
    the command name), the apply loop does not take it for an unrecoverable engine error *)
